@@ -16,7 +16,7 @@ from . import extract as X
 VERIF = D.VERIF
 SAFETY_PAT = re.compile(r'pointer_dereference|array_bounds|overflow|pointer_arithmetic|assigns|'
                         r'division|pointer_primitives|unwind|\.idx\.|is_fresh|frees|conversion|'
-                        r'precondition_instance|pointer\b|safety', re.I)
+                        r'precondition_instance|pointer\b|safety|frame:|not modified|uninitiali|never freed|leak', re.I)
 
 
 def load_units():
